@@ -143,9 +143,10 @@ func buildProperty(ww *conversionVisitor, node *sourcewalk.PropertyNode) (*descr
 		// Add validation rules based on the type of the array regardless of array
 		// rules being specified. This is specifically to cover cases where types
 		// are created from other primitives, like id62 having a string validation.
-		if validateExt != nil {
-			repeated := &validate.RepeatedRules{
-				Items: validateExt,
+		if validateExt != nil || st.Array.Rules != nil {
+			repeated := &validate.RepeatedRules{}
+			if validateExt != nil {
+				repeated.Items = validateExt
 			}
 
 			if st.Array.Rules != nil {
